@@ -19,6 +19,7 @@ import ast
 from vlib import q, proto
 from vlib.proto import C, T, is_c, is_t, show, subterms
 from vlib.sym import Lin, equal, NF
+from vlib.pat import Pat, returned
 from vlib.front import unparse, dotted, const_value, AnchorMissing
 from obligations.C11 import MI, _strip
 
@@ -59,9 +60,23 @@ def s1_templates(ctx):
         nchan_name, nsamp_name = n2, n1
     ctx.check(ok, 'C12.S1', f, shp[0] if shp else 'write_templates', 'merged templates have (sum of template counts, n_samples, sum of channel counts) entries',
               'the merged templates shape is not (sum shape[0], n_samples, sum shape[2]) over the probes')
-    hdr = [c for c in f.calls() if dotted(c.func) == 'np.save']
-    ctx.check(bool(hdr) and unparse(hdr[0].args[0]) == 'path' and 'np.empty(shape' in unparse(hdr[0].args[1]).replace(' ', ''), 'C12.S1', f, hdr[0] if hdr else 'write_templates',
-              'the file header is written for that shape', 'the .npy header is not written for the merged shape')
+    hdr = [c for c in f.calls() if dotted(c.func) == 'np.save' and len(c.args) >= 2]
+    opens = [w_ for w_ in f.nodes(ast.With) for it_ in w_.items if isinstance(it_.context_expr, ast.Call) and dotted(it_.context_expr.func) == 'open' and it_.optional_vars is not None]
+    fid_name = unparse(opens[0].items[0].optional_vars) if opens else 'fid'
+    opened = unparse(opens[0].items[0].context_expr.args[0]) if opens and opens[0].items[0].context_expr.args else None
+    shape_name = unparse(shp[0].targets[0]) if shp else 'shape'
+    if not hdr or not opens:
+        ctx.undecided('C12.S1', f, 'creation of the merged templates file (np.save of an empty array, then open) not recognised')
+    else:
+        alloc = hdr[0].args[1]
+        g = unparse(hdr[0].args[0]) == opened and isinstance(alloc, ast.Call) and dotted(alloc.func) in ('np.empty', 'np.zeros') and alloc.args and unparse(alloc.args[0]) == shape_name
+        b_ = not g and isinstance(alloc, ast.Call) and dotted(alloc.func) in ('np.empty', 'np.zeros') and alloc.args and (unparse(alloc.args[0]) != shape_name or unparse(hdr[0].args[0]) != opened)
+        if g:
+            ctx.holds('C12.S1', f, 'the file header is written for that shape', hdr[0])
+        elif b_:
+            ctx.violated('C12.S1', f, hdr[0], 'the .npy header is not written for the merged shape on the file that is then filled (`%s`)' % unparse(hdr[0])[:90])
+        else:
+            ctx.undecided('C12.S1', f, 'header write `%s` not recognised' % unparse(hdr[0])[:60], hdr[0])
     # loops
     loops = f.nodes(ast.For)
     outer = [l for l in loops if unparse(l.iter).replace(' ', '') in ('range(len(self.subdirs))', 'range(len(%s))' % tl)]
@@ -82,7 +97,7 @@ def s1_templates(ctx):
     assigned = [unparse(t) for s_ in pre if isinstance(s_, ast.Assign) for t in s_.targets]
     carried = [n for n in assigned if any(isinstance(x, ast.Name) and x.id == n for s_ in pre for x in ast.walk(s_.value) if isinstance(s_, ast.Assign)) or True]
     TL, i, it = T('TL'), T('i'), T('it')
-    env = {f.params[0]: me, tl: TL, ivar: i, unparse(il.target): it, nchan_name: T('NCH'), nsamp_name: T('NS'), 'fid': T('fid')}
+    env = {f.params[0]: me, tl: TL, ivar: i, unparse(il.target): it, nchan_name: T('NCH'), nsamp_name: T('NS'), fid_name: T('fid')}
     for n in assigned:
         env[n] = T('pre', n)
     nch_i = T('index', T('attr', T('index', TL, i), 'shape'), C(2))
@@ -370,24 +385,39 @@ def d1_params(ctx):
     repo = ctx.repo
     cls = repo.cls(MG, 'Merger')
     f = repo.lookup_method(cls, 'write_params')
-    txt = {unparse(a.targets[0]): unparse(a.value).replace(' ', '') for a in f.nodes(ast.Assign)}
-    pl = [k for k, v in txt.items() if v == "[read_python(subdir/'params.py')forsubdirinself.subdirs]"]
-    ok_sum = ok_first = ok_set = ok_write = False
-    if pl:
-        p = pl[0]
-        sums = [k for k, v in txt.items() if v in ("sum((params['n_channels_dat']forparamsin%s))" % p, "sum(params['n_channels_dat']forparamsin%s)" % p,
-                                                  "sum([params['n_channels_dat']forparamsin%s])" % p)]
-        merged = [k for k, v in txt.items() if v in ('%s[0]' % p, '%s[0].copy()' % p, 'dict(%s[0])' % p)]
-        ok_sum, ok_first = bool(sums), bool(merged)
-        if sums and merged:
-            ok_set = txt.get("%s['n_channels_dat']" % merged[0]) == sums[0]
-            w = [c for c in f.calls() if dotted(c.func) == 'write_python']
-            ok_write = bool(w) and unparse(w[0].args[0]).replace(' ', '') == "self.out_dir/'params.py'" and unparse(w[0].args[1]) == merged[0]
-            other = [k for k in txt if k.startswith("%s['" % merged[0]) and k not in ("%s['n_channels_dat']" % merged[0], "%s['dat_path']" % merged[0])]
-            ctx.check(not other, 'C12.D1', f, 'merged params', 'no other parameter (sampling rate, dtype, ...) is changed', 'merged params also override %s' % other)
-    ctx.check(ok_sum, 'C12.D1', f, 'n_channels_dat', 'n_channels_dat of the merged dataset = sum over all probes', 'n_channels_dat is not the sum over all probes')
-    ctx.check(ok_first and ok_set and ok_write, 'C12.D1', f, 'write_params', 'merged params = params of the first probe with n_channels_dat replaced, written to the output directory',
-              'merged params are not first-probe params with the summed n_channels_dat written to out_dir/params.py')
+    P = Pat(f)
+    pl = P.stmt("V_pl = [read_python(V_d / 'params.py') for V_d in self.subdirs]")
+    if pl is None:
+        ctx.undecided('C12.D1', f, 'the list of per-probe params (read_python over self.subdirs) was not recognised')
+        return
+    sm = P.stmt("V_sum = sum(V_p['n_channels_dat'] for V_p in V_pl)") or P.stmt("V_sum = sum([V_p['n_channels_dat'] for V_p in V_pl])") or P.stmt("V_sum = np.sum([V_p['n_channels_dat'] for V_p in V_pl])")
+    sm_bad = None
+    if sm is None:
+        sm_bad = P.stmt("V_sum = V_pl[0]['n_channels_dat']") or P.stmt("V_sum = max(V_p['n_channels_dat'] for V_p in V_pl)") or P.stmt("V_sum = V_pl[-1]['n_channels_dat']")
+    mg = P.stmt('V_merged = V_pl[0]') or P.stmt('V_merged = V_pl[0].copy()') or P.stmt('V_merged = dict(V_pl[0])')
+    if sm is not None:
+        ctx.holds('C12.D1', f, 'n_channels_dat of the merged dataset = sum over all probes', sm)
+    elif sm_bad is not None:
+        ctx.violated('C12.D1', f, sm_bad, 'n_channels_dat is `%s`, not the sum over all probes' % unparse(sm_bad.value))
+    else:
+        ctx.undecided('C12.D1', f, 'computation of the merged n_channels_dat not recognised')
+    if mg is None or sm is None:
+        ctx.undecided('C12.D1', f, 'construction of the merged params not recognised')
+    else:
+        st = P.stmt("V_merged['n_channels_dat'] = V_sum")
+        w = [c for c in f.calls() if dotted(c.func) == 'write_python' and len(c.args) >= 2]
+        w_ok = bool(w) and Pat().m("self.out_dir / 'params.py'", w[0].args[0]) and isinstance(w[0].args[1], ast.Name) and w[0].args[1].id == P.name('V_merged')
+        w_bad = bool(w) and not w_ok and (isinstance(w[0].args[1], ast.Name) or 'subdir' in unparse(w[0].args[0]))
+        other = [a for a in f.nodes(ast.Assign) if isinstance(a.targets[0], ast.Subscript) and isinstance(a.targets[0].value, ast.Name) and a.targets[0].value.id == P.name('V_merged') and
+                 const_value(a.targets[0].slice) not in ('n_channels_dat', 'dat_path')]
+        ctx.check(not other, 'C12.D1', f, other[0] if other else 'merged params', 'no other parameter (sampling rate, dtype, ...) is changed',
+                  'merged params also override %s' % [unparse(a.targets[0]) for a in other])
+        if st is not None and w_ok:
+            ctx.holds('C12.D1', f, 'merged params = params of the first probe with n_channels_dat replaced, written to the output directory', w[0])
+        elif st is None or w_bad:
+            ctx.violated('C12.D1', f, w[0] if w else 'write_params', 'merged params are not first-probe params with the summed n_channels_dat written to out_dir/params.py')
+        else:
+            ctx.undecided('C12.D1', f, 'write of the merged params not recognised')
 
 
 def run(ctx):
